@@ -29,7 +29,7 @@ from .. import q
 from ..cfg import must_facts, explore
 from ..model import AnalysisError
 from ..mutate import mutate, remove_stmts, replace_expr, replace_stmt, parse_stmt, parse_expr
-from ..x_secflow import Reach, Escapes, is_unpack, strip_wrappers, same, parsed_facts, fact_geq0, equality_fact, absent_or_unknown
+from ..x_secflow import own_nodes, Reach, Escapes, is_unpack, strip_wrappers, same, parsed_facts, fact_geq0, equality_fact, absent_or_unknown
 
 TECHNIQUE = "path-sensitive must-pass-through on the CFG of _execute with exhaustive evaluation of the method predicate, guard dominance + reaching-definition expansion in check_xsrf_cookie, exception-escape analysis, issuer/decoder role tables"
 EXPLANATION = (
@@ -161,6 +161,48 @@ def check_gate(ck, ex):
         flag_defs.setdefault(d.path, []).append(d)
     flags = {p_ for p_, ds in flag_defs.items() if "." not in p_ and all(d.kind == "assign" and isinstance(d.value, ast.Constant) and isinstance(d.value.value, bool) for d in ds)}
 
+    def const_resolved(e):
+        """Module-level / class-level constant collections (``_SAFE = frozenset((...))``) spelled out, container
+        constructors of a literal reduced to the literal."""
+        import copy
+
+        locals_ = set(q.local_names(ex.node))
+
+        def literal(v, depth=0):
+            if isinstance(v, ast.Call) and isinstance(v.func, ast.Name) and v.func.id in ("frozenset", "set", "tuple", "list") and len(v.args) == 1 and not v.keywords:
+                return literal(v.args[0], depth)
+            if isinstance(v, (ast.Tuple, ast.List, ast.Set)) and all(isinstance(x, ast.Constant) for x in v.elts):
+                return ast.Tuple(elts=list(v.elts), ctx=ast.Load())
+            if isinstance(v, ast.Name) and depth < 3 and v.id in ex.module.assigns:
+                return literal(ex.module.assigns[v.id], depth + 1)
+            return None
+
+        class T(ast.NodeTransformer):
+            def visit_Name(self, node):
+                if node.id not in locals_ and node.id in ex.module.assigns:
+                    lit = literal(ex.module.assigns[node.id])
+                    if lit is not None:
+                        return lit
+                return node
+
+            def visit_Attribute(self, node):
+                d = q.dotted(node)
+                if d and d.split(".")[0] in ("self", "cls", RH) and len(d.split(".")) == 2 and d != "self.SUPPORTED_METHODS":
+                    try:
+                        lit = literal(ck.repo.class_attr(W, RH, node.attr))
+                    except AnalysisError:
+                        lit = None
+                    if lit is not None:
+                        return lit
+                return self.generic_visit(node)
+
+            def visit_Call(self, node):
+                self.generic_visit(node)
+                lit = literal(node)
+                return lit if lit is not None else node
+
+        return T().visit(copy.deepcopy(e))
+
     def case_folded(e):
         """``self.request.method.lower()/.upper()`` -> pseudo variables so the predicate stays evaluable."""
         import copy
@@ -205,7 +247,7 @@ def check_gate(ck, ex):
             elif "self.request.method" in q.unparse(e):
                 recognised_tests.add(n.id)
                 keep = set()
-                e = case_folded(e)
+                e = case_folded(const_resolved(e))
                 for m in methods:
                     try:
                         v = bool(q.fold(e, {"self.request.method": m, "__m_lower": m.lower(), "__m_upper": m.upper(), "self.SUPPORTED_METHODS": supported_env}))
@@ -349,9 +391,44 @@ def check_check(ck, chk, raw, dec):
     dec_calls = cfg.find(lambda x: is_self_call(x, dec.name))
     ck.need(len(dec_calls) >= 1 and all(len(c.args) == 1 for _n, c in dec_calls), "_decode_xsrf_token call with unexpected arguments")
 
+    def g_is_local(x):
+        return isinstance(x, ast.Name)
+
+    def first_truthy(e):
+        """``next(filter(None, ITER), None)`` / ``next((x for x in ITER if x), None)`` -> ITER"""
+        if isinstance(e, ast.Call) and isinstance(e.func, ast.Name) and e.func.id == "next" and 1 <= len(e.args) <= 2 and (len(e.args) == 1 or (isinstance(e.args[1], ast.Constant) and not e.args[1].value)):
+            it = e.args[0]
+            if isinstance(it, ast.Call) and isinstance(it.func, ast.Name) and it.func.id == "filter" and len(it.args) == 2 and isinstance(it.args[0], ast.Constant) and it.args[0].value is None:
+                return it.args[1]
+            if isinstance(it, ast.GeneratorExp) and len(it.generators) == 1 and isinstance(it.generators[0].target, ast.Name) and isinstance(it.elt, ast.Name) and it.elt.id == it.generators[0].target.id \
+                    and len(it.generators[0].ifs) == 1 and isinstance(it.generators[0].ifs[0], ast.Name) and it.generators[0].ifs[0].id == it.elt.id:
+                return it.generators[0].iter
+        return None
+
+    def iter_items(it):
+        """The expressions an iterable yields, in order: a display, or a private generator method made of plain yields."""
+        if isinstance(it, (ast.Tuple, ast.List)) and not any(isinstance(x, ast.Starred) for x in it.elts):
+            return list(it.elts), None
+        m_ = it.func.attr if isinstance(it, ast.Call) and isinstance(it.func, ast.Attribute) and isinstance(it.func.value, ast.Name) and it.func.value.id == "self" and not it.args and not it.keywords else None
+        if m_ and ck.repo.has_func(W, RH + "." + m_):
+            g = ck.repo.func(W, RH + "." + m_)
+            body = [s_ for s_ in g.node.body if not (isinstance(s_, ast.Expr) and isinstance(s_.value, ast.Constant))]
+            if body and all(isinstance(s_, ast.Expr) and isinstance(s_.value, ast.Yield) and s_.value.value is not None for s_ in body):
+                return [s_.value.value for s_ in body], g
+        return None, None
+
     def alts(e, node, depth=0):
         if isinstance(e, ast.BoolOp) and isinstance(e.op, ast.Or):
             return [a for v in e.values for a in alts(v, node, depth)]
+        ft = first_truthy(e)
+        if ft is not None:
+            items, g = iter_items(rd.expand(ft, node) if g_is_local(ft) else ft)
+            if items is None:
+                raise AnalysisError("check_xsrf_cookie: the candidates iterated for the request token are not understood: %s" % q.unparse(ft)[:80])
+            if g is not None:
+                ck.use(g)
+                return [(x, x) for x in items]  # the generator's own expressions (no caller locals involved)
+            return [a for v in items for a in alts(v, node, depth)]
         if isinstance(e, ast.Name) and depth < 8:
             ds = rd.defs_at(node, e.id)
             if ds and all(d.kind == "assign" and d.value is not None for d in ds):
@@ -453,6 +530,39 @@ def hexcall(e, names):
     return None
 
 
+def fold_format(v):
+    """``b"2|%b|%b|%d" % (a, b, c)``  ->  ``b"|".join([b"2", a, b, c])`` when the literal text between the
+    conversions is one and the same separator (the formatted token is then exactly that join)."""
+    import re as _re
+
+    if not (isinstance(v, ast.BinOp) and isinstance(v.op, ast.Mod) and isinstance(v.left, ast.Constant) and isinstance(v.left.value, (bytes, str))):
+        return v
+    fmt = v.left.value
+    args = list(v.right.elts) if isinstance(v.right, ast.Tuple) else [v.right]
+    is_b = isinstance(fmt, bytes)
+    text = fmt.decode("latin1") if is_b else fmt
+    specs = list(_re.finditer(r"%[bsd]", text))
+    if "%" in _re.sub(r"%[bsd]", "", text) or len(specs) != len(args) or not specs:
+        raise AnalysisError("xsrf_token: format string %r is not understood" % (fmt,))
+    lits = []
+    pos_ = 0
+    for m_ in specs:
+        lits.append(text[pos_:m_.start()])
+        pos_ = m_.end()
+    lits.append(text[pos_:])
+    mids = set(lits[1:-1])
+    if lits[-1] != "" or len(mids) > 1:
+        raise AnalysisError("xsrf_token: format string %r does not separate its fields uniformly" % (fmt,))
+    sep = mids.pop() if mids else None
+    if sep is None or sep == "" or not lits[0].endswith(sep):
+        raise AnalysisError("xsrf_token: format string %r does not separate its fields uniformly" % (fmt,))
+    enc = (lambda t: t.encode("latin1")) if is_b else (lambda t: t)
+    head = [ast.Constant(value=enc(h)) for h in lits[0][: -len(sep)].split(sep)]
+    elts = head + [a if sp.group(0) != "%d" or (isinstance(a, ast.Call) and q.call_attr(a) == "int") else ast.Call(func=ast.Name(id="int", ctx=ast.Load()), args=[a], keywords=[]) for a, sp in zip(args, specs)]
+    new = ast.Call(func=ast.Attribute(value=ast.Constant(value=enc(sep)), attr="join", ctx=ast.Load()), args=[ast.List(elts=elts, ctx=ast.Load())], keywords=[])
+    return ast.copy_location(new, v)
+
+
 def issuer_tables(ck, iss, raw, pos):
     """output version -> description of the issued token."""
     p, n = pos
@@ -473,6 +583,8 @@ def issuer_tables(ck, iss, raw, pos):
             dl = rd.unique(nd, v.args[0].id)
             if dl is not None and dl.kind == "assign" and isinstance(dl.value, (ast.List, ast.Tuple)):
                 v = ast.Call(func=v.func, args=[dl.value], keywords=[])
+
+        v = fold_format(v)
 
         def is_tok(x):
             t = token_pos(rd.expand(x, nd), raw.name)
@@ -603,6 +715,9 @@ def check_tables(ck, iss, dec, it, dt):
                 cands = [(name, "expr")]
             kinds = []
             for v, kd in cands:
+                if v is not None:
+                    dfn = next((df.node for df in rd.defs_at(nd, name.id) if df.value is v), nd) if isinstance(name, ast.Name) else nd
+                    v = rd.expand(v, dfn)
                 h = hexcall(v, HEX_INV.values()) if v is not None else None
                 if h and isinstance(strip_wrappers(h[0]), ast.Name) and strip_wrappers(h[0]).id == param and HEX_INV.get(enc[0]["codec"]) == h[1]:
                     kinds.append("hex")
@@ -748,7 +863,13 @@ def run(ck):
 
     check_gate(ck, ex)
     pos = check_check(ck, chk, raw, dec)
-    es = Escapes(ck.repo, W, [dec.qualname, chk.qualname, raw.qualname], lambda fi: [p for p in fi.params() if p != "self"],
+    gens = []
+    for x in own_nodes(chk.node):
+        if isinstance(x, ast.Call) and is_self_call(x, x.func.attr if isinstance(x.func, ast.Attribute) else "") and x.func.attr.startswith("_") and ck.repo.has_func(W, RH + "." + x.func.attr):
+            g = ck.repo.func(W, RH + "." + x.func.attr)
+            if g.qualname not in (dec.qualname, raw.qualname) and any(isinstance(y, (ast.Yield, ast.YieldFrom)) for y in own_nodes(g.node)):
+                gens.append(g.qualname)  # a private generator consumed here: what its body raises surfaces in check_xsrf_cookie
+    es = Escapes(ck.repo, W, [dec.qualname, chk.qualname, raw.qualname] + gens, lambda fi: [p for p in fi.params() if p != "self"],
                  trusted={".get_argument": ("HTTPError",), ".get_cookie": ()}, narrowing_asserts_ok=[raw.qualname])
     ar = check_decode_total(ck, dec, raw, es)
     check_raises(ck, chk, es)
